@@ -104,8 +104,13 @@ def concretise_late(schema, labels, rnd):
     # later named insert could refer to, and the other way round)
     mode = {c: rnd.random() < 0.35 for c in schema['classes']}
 
+    # a named insert may spell its columns in another letter case: a class inferred from it has the names as written, a
+    # declared class takes the values under its declared names
+    respell = rnd.choice([lambda n: n, lambda n: n.upper(), lambda n: n.lower(), lambda n: n.swapcase()])
+    spell = {c: {a['n']: respell(a['n']) for a in schema['attrs'][c]} for c in schema['classes'] if mode[c]}
+
     def rows_chunk(rows):
-        return {'parts': [], 'rows': rows, 'canonical': True, 'named': [mode[r['c']] for r in rows]}
+        return {'parts': [], 'rows': rows, 'canonical': True, 'named': [mode[r['c']] for r in rows], 'spell': spell}
     chunks = {1: {'parts': ['table'], 'rows': []}, 2: rows_chunk(pop[:cut]), 3: rows_chunk(pop[cut:])}
     acts = []
     fed = []
@@ -123,7 +128,8 @@ def concretise_late(schema, labels, rnd):
                 for c in schema['classes']:
                     first = [n for r, n in zip(rows, named) if r['c'] == c]
                     undecl[c] = 'none' if not first else ('named' if first[0] else 'pos')
-            acts.append(['Build', {'undecl': undecl or {'_': '_'}}])
+            acts.append(['Build', {'undecl': undecl or {'_': '_'},
+                                   'names': {c: [spell[c][a['n']] for a in schema['attrs'][c]] for c in spell} or {'_': []}}])
             b = ModelBook(schema, rows)
             b.usable = [c for c in schema['classes'] if undecl.get(c) != 'none']
             books.append(b)
@@ -152,6 +158,7 @@ def focus_traces(events):
         tr = []
         built = False
         undecl = None
+        names = {'_': []}
         for e in events:
             proj = e['models'][k - 1] if len(e['models']) >= k else None
             base = {'res': e['res'], 'oerr': '', 'spell': {'_': []}, 'ser': {'_': []}, 'q': [], 'qr': [], 'fix': ''}
@@ -161,6 +168,7 @@ def focus_traces(events):
                 ev = dict(base, op='BuildFocus', g=e.get('g', -1))
                 built = True
                 undecl = e.get('undecl')
+                names = e.get('names') or {'_': []}
             elif e['op'] == 'Mutate' and e.get('model') == k:
                 ev = dict(base)
                 ev.update(e['sub'])
@@ -181,6 +189,7 @@ def focus_traces(events):
                     ev['peek'] = proj['peek']
                 if undecl:
                     ev['undecl'] = undecl
+                    ev['names'] = names
                 ev['oerr'] = proj.get('oerr', '')
                 ev['spell'] = {c: [] for c in proj['pool']}
                 ev['ser'] = {c: [] for c in proj['pool']}
